@@ -472,3 +472,75 @@ Proof.
     by (unfold sumnv, nvs; rewrite map_app, list_sum_app; simpl; fold nv; lia).
   apply IH. rewrite <- app_assoc. exact E.
 Qed.
+
+Lemma gs_cells (its : itemsT) : its_ok its ->
+  combine (header_cells (combine (map fst its) (nvs its)))
+          (if w_desc o then header_cells (combine (map (fun p => fst (snd p)) its) (nvs its))
+           else repeat ""%string (sumnv its))
+  = flat_map gcells (gs_of its).
+Proof.
+  intros Hok.
+  set (l := map (fun p => ((fst p, dcell_of p), s_nv (snd (snd p)))) its).
+  assert (E1 : combine (map fst its) (nvs its) = map (fun q => (fst (fst q), snd q)) l).
+  { rewrite combine_fst_nvs. unfold l. rewrite map_map. reflexivity. }
+  assert (Hl : Forall (fun p : string * nat => (1 <= snd p)%nat) (map (fun q => (snd (fst q), snd q)) l)).
+  { unfold l. rewrite map_map. apply Forall_forall. intros q Hq. apply in_map_iff in Hq as (p & <- & Hp). cbn [snd fst].
+    eapply Forall_forall in Hok; [|exact Hp]. tauto. }
+  assert (E3 : gs_of its = map (fun q => (fst q, repeat (if w_desc o then "*"%string else ""%string) (snd q - 1))) l).
+  { unfold gs_of, l. rewrite map_map. reflexivity. }
+  rewrite E1, E3, header_cells_gen, <- combine_gen_cells. f_equal.
+  unfold dcell_of in *. destruct (w_desc o).
+  - rewrite combine_fst_nvs, header_cells_gen. unfold l. rewrite map_map. reflexivity.
+  - assert (E4 : sumnv its = list_sum (map snd (map (fun q : string * string * nat => (snd (fst q), snd q)) l))).
+    { unfold sumnv, nvs, l. rewrite !map_map. reflexivity. }
+    rewrite E4, repeat_gen_cells by assumption. f_equal. unfold l. rewrite !map_map. reflexivity.
+Qed.
+
+Lemma import_block_step (NRw DRw : row) (DATAw : nat -> row) total col f ps (its : itemsT) acc :
+  b_ok total (f, ps, its) ->
+  slice NRw (S col) (col + S (length (hbody its))) = hbody its ->
+  slice DRw (S col) (col + S (length (hbody its))) = (if w_desc o then dbody its else repeat ""%string (length (hbody its))) ->
+  (forall r j, (r < total)%nat -> (j < S (S (sumnv its)))%nat ->
+               cell_at (DATAw r) (col + j) = nth j (datarow (f, ps, its) r) ""%string) ->
+  import_block A parse_period parse_val NRw DRw (map DATAw (seq 0 total)) (Ok acc) (f, col, (col + S (length (hbody its)))%nat)
+  = Ok (fold_left (fun d q => dset A d (fst q) (snd q)) (imported (f, ps, its)) acc).
+Proof.
+  intros (Hits & Hne & Hle & Hst) Hn Hd Hcell. cbn [fst snd] in *.
+  assert (Hlen : (0 < length ps)%nat) by (destruct ps; [contradiction|simpl; lia]).
+  assert (Hdate : forall r, (r < total)%nat ->
+            cell_at (DATAw r) col = if Nat.ltb r (length ps) then fmt_period f (nth r ps 0) else ""%string).
+  { intros r Hr. rewrite <- (Nat.add_0_r col) at 1. rewrite Hcell by lia. unfold datarow. cbn [fst snd].
+    destruct (Nat.ltb r (length ps)); reflexivity. }
+  unfold import_block.
+  remember (map DATAw (seq 0 total)) as rows eqn:Erows.
+  destruct rows as [|r0 rest].
+  { destruct total; [lia|discriminate]. }
+  assert (Er0 : r0 = DATAw 0%nat) by (destruct total; [lia|]; simpl in Erows; now inversion Erows).
+  rewrite Er0, Hdate by lia. destruct (Nat.ltb_spec 0 (length ps)); [|lia].
+  rewrite period_roundtrip. rewrite <- Er0, Erows. clear Er0 r0 rest Erows.
+  rewrite (filter_map_seq_prefix _ DATAw (length ps) total Hle).
+  2:{ intros r Hr. rewrite Hdate by assumption. unfold str_nonempty.
+      destruct (Nat.ltb r (length ps)); [|reflexivity].
+      apply negb_true_iff. apply String.eqb_neq. apply fmt_period_nonempty. }
+  rewrite map_map.
+  assert (Eper : map (fun x => parse_period f (cell_at (DATAw x) col)) (seq 0 (length ps))
+                 = map (fun r => Some (nth r ps 0)) (seq 0 (length ps))).
+  { apply map_ext_in. intros r Hr. apply in_seq in Hr. rewrite Hdate by lia.
+    destruct (Nat.ltb_spec r (length ps)); [|lia]. apply period_roundtrip. }
+  rewrite Eper, all_some_map_Some, map_nth_seq. clear Eper.
+  rewrite Hn, Hd.
+  assert (Ecomb : combine (hbody its ++ [""%string])
+                          ((if w_desc o then dbody its else repeat ""%string (length (hbody its))) ++ [""%string])
+                  = flat_map gcells (gs_of its) ++ [(""%string, ""%string); (""%string, ""%string)]).
+  { rewrite <- gs_cells by assumption. unfold hbody, dbody. destruct (w_desc o).
+    - rewrite <- !app_assoc. rewrite combine_app' by now rewrite !hcells_length. reflexivity.
+    - rewrite app_length, hcells_length by assumption. cbn [length]. rewrite repeat_app. cbn [repeat].
+      rewrite <- !app_assoc. rewrite combine_app' by now rewrite hcells_length, repeat_length. reflexivity. }
+  rewrite Ecomb, col_iter_groups.
+  2:{ intros g Hg. unfold gs_of in Hg. apply in_map_iff in Hg as (p & <- & Hp). cbn [fst].
+      eapply Forall_forall in Hits; [|exact Hp]. destruct Hits as ((H1 & H2 & _) & _). split; assumption. }
+  cbn [app]. f_equal.
+  apply (import_groups_fold DATAw col f ps its Hits) with (pre := []); [|reflexivity].
+  intros r j Hr Hj. rewrite Hcell by lia. unfold datarow. cbn [fst snd].
+  destruct (Nat.ltb_spec r (length ps)); [reflexivity|lia].
+Qed.
